@@ -30,6 +30,8 @@ PROPS = {
     "C14": dict(harness="bt", trusted=BT_TRUST, assumptions=["server clock and sample coins are inputs"]),
     "C16": dict(harness="bt", trusted=BT_TRUST, assumptions=["server clock and sample coins are inputs"]),
     "C17": dict(harness="bt", trusted=BT_TRUST, assumptions=["server clock and sample coins are inputs"]),
+    "C18": dict(harness="bt", trusted=BT_TRUST + ["goleveldb's iterator snapshot guarantee; sync.RWMutex and the Go scheduler (preemption exhibited only at the instrumented hand-over point)"],
+                assumptions=["blocking is observed through the runtime's goroutine wait state"]),
     "C19": dict(harness="lock", trusted=["Go channel and sync.Mutex semantics are the model's rules by construction (a blocked sender is woken when the slot frees; select picks any ready case)"],
                 assumptions=["blocking in the select is observed through the runtime's goroutine wait state", "the runtime's choice at a both-ready select is sampled, not forced"],
                 oracle_codes={1: "two holders of one key", 2: "map entry left at quiescence", 3: "Lock returned false without a cancellation", 4: "the holder's own Unlock panicked", 5: "Unlock of a never-held key returned normally"}),
@@ -96,6 +98,8 @@ TEXT = {
              level="Theorems over all histories of the handler model with the store clock as a strictly increasing counter: every content write gets a generation above everything handed out before and metageneration 1; a patch bumps only metageneration; reads and failures change nothing." + _CORR, note=_NOTE + " Assumes the stores' wall clock strictly increases between successive writes."),
  "C11": dict(technique="Coq proof (pagination complete/duplicate-free/sorted for the memory store without delimiter; early-exit soundness) + exhaustive enumeration of name-universe subsets x prefixes x delimiters x page sizes with a whole-pagination oracle, both stores",
              level="Theorems about the listing walk: with an ascending walk order the prefix abort and cursor skip lose nothing, a page is the first maxResults matching names, and following tokens yields every matching name exactly once in order (memory store, no delimiter). Delimiter pagination (GCS-1) and the file store's walk order (GCS-2) are refuted by witnesses and recorded as findings; the oracle still checks every complete pagination against the API semantics." + _CORR, note=_NOTE),
+ "C18": dict(technique="Coq proof over the interleaving model (scan = read-locked sections over one snapshot per range) + forced schedules at every hand-over of real multi-message scans, both leveldb engines",
+             level="Theorems about the interleaving model of a ReadRows scan that gives up the table lock while streaming, for all schedules and any number of writers: every returned row is the row's value in the snapshot taken when its range scan started (a state that existed between scan start and end, never a mixture), rows come in strictly ascending order without duplicates, rows not written during the scan are returned as stored, and the scan ends OK. Correspondence: real scans spanning several messages are parked at every hand-over while writers, deleters and read-modify-writes act on rows before/at/after the scan position; every step and the returned rows are compared with the model." + _CORR, note=_NOTE + " goleveldb's snapshot guarantee, sync.RWMutex and the Go scheduler are assumptions; DropRowRange(all) under a parked scan is finding BT-17."),
  "C19": dict(technique="Coq invariant proof over an executable small-step model (any number of goroutines, keys, steps, cancellations) + step-by-step correspondence through yield hooks, exhaustive for 2 goroutines x 1 key",
              level="Theorems for every reachable state of the step model of TransientLockMap/countedLock (any number of threads and keys, any schedule, any cancellations): the inductive invariant, mutual exclusion, Lock returns true iff it acquired, a cancelled Lock holds nothing and changes no channel, no lost wake-up, independence of keys, Unlock of an unheld key panics with the state unchanged, no leak at quiescence, no deadlock. Correspondence: real goroutines are stepped through yield points at each internal step; outcome class and map size after every action are compared with the model (either select choice accepted where both are ready) and with a model-independent oracle." + _CORR, note=_NOTE + " Go channel/mutex semantics are the model's rules; the runtime's select choice is sampled."),
  "C12": dict(technique="Coq proof (branch selection of CheckAndMutateRow vs filter semantics) + differential correspondence, 3 engines",
